@@ -8,7 +8,8 @@ SPEC = {
             "(thorough 4) over {bin 0, bin 1, exact bin edge, below, above} x {-1,+2} system force x {lagged, same-step} x "
             "{one run, new run in the same process at every K, restart from the saved state at every K, new simulation at every K that reads the "
             "first one's output files through inputPrefix} plus, for every K, two independent simulations merged by a third that names both in "
-            "inputPrefix (counts add, gradients are the mean over all samples); after EVERY step the stored count and "
+            "inputPrefix (counts add, gradients are the mean over all samples), and - for the plain 1-D configuration - the files of the whole word "
+            "read by a simulation with bins twice as wide; after EVERY step the stored count and "
             "gradient of EVERY bin, the biasing force on the variables and the atomic force are compared with a reference "
             "ABF (bin -> list of samples); states = distinct reference sample tables, transitions = steps",
     "assumptions": ["system forces and positions are scripted; under the lagged convention the simulator adds Colvars' own forces "
